@@ -161,5 +161,8 @@ class AsyncRecording(MemoryRecording):
         :param metadata: Metadata to add to the recording
         :type metadata: dict
         """
+        # The operation is applied later by the flushing thread: keep the items as they are now, as the synchronous
+        # cassettes do, and not whatever the caller's dict will hold by then
+        metadata = dict(metadata)
         super(AsyncRecording, self)._add_metadata(metadata)
         self._add_async_operation_callback(lambda: self.wrapped_recording.add_metadata(metadata))
